@@ -110,15 +110,16 @@ def run_model_sharded(cases, outp, work, tmo):
     if nsh == 1:
         return sh("ulimit -v 16000000; ulimit -s unlimited; %s %s %s" % (drv, cases, outp), tmo)
     lines = open(cases).read().splitlines(True)
-    per = (len(lines) + nsh - 1) // nsh
+    # round-robin: case i goes to shard i mod nsh (sizes vary by orders of magnitude along the file)
     procs, outs = [], []
     for i in range(nsh):
         part = os.path.join(work, "cases.%02d" % i)
         po = os.path.join(work, "model.%02d" % i)
-        open(part, "w").writelines(lines[i * per:(i + 1) * per])
+        open(part, "w").writelines(lines[i::nsh])
         outs.append((part, po))
         procs.append(subprocess.Popen("ulimit -v 16000000; ulimit -s unlimited; %s %s %s" % (drv, part, po),
                                       shell=True, stdout=subprocess.PIPE, stderr=subprocess.STDOUT))
+    live = [0 if l.startswith("#") or not l.strip() else 1 for l in lines]
     del lines
     rc, msg = 0, ""
     t_end = time.time() + tmo
@@ -130,12 +131,22 @@ def run_model_sharded(cases, outp, work, tmo):
         if p.returncode not in (0, None) and rc == 0:
             rc = p.returncode
         msg += o.decode("utf-8", "replace")[-300:]
+    # re-interleave: shard k holds the observations of its non-comment cases, in order
+    shard_out = []
+    for part, po in outs:
+        shard_out.append(open(po).read().splitlines(True) if os.path.exists(po) else [])
+        if os.path.exists(po):
+            os.remove(po)
+        os.remove(part)
+    pos = [0] * nsh
     with open(outp, "w") as f:
-        for part, po in outs:
-            if os.path.exists(po):
-                f.write(open(po).read())
-                os.remove(po)
-            os.remove(part)
+        for i, is_case in enumerate(live):
+            if not is_case:
+                continue
+            k = i % nsh
+            if pos[k] < len(shard_out[k]):
+                f.write(shard_out[k][pos[k]])
+            pos[k] += 1
     return rc, msg
 
 
